@@ -484,13 +484,16 @@ class SeqProg(Module):
                     sync += R(t, rv).eq(e)
             r = R((4, False), 9, reset_less=True)
             sync += If(en, r.eq(a))
-        elif kind == "hold":
-            r1 = R((5, True), 0b11101); r2 = R((5, False), 7); r3 = R((4, False), 2, reset_less=True); r4 = R((4, True), 0)
-            r5 = R((6, False), 33); r6 = R((3, True), 0b101)
+        elif kind == "hold1":
+            r1 = R((5, True), 0b11101); r2 = R((5, False), 7); r3 = R((4, False), 2, reset_less=True)
             sync += [
                 If(en, r1.eq(a)).Elif(b[0], r1.eq(b)).Else(r1.eq(r1 + 1)),
                 If(a == b, r2.eq(a + b)),
                 If(en & ~a[0], r3.eq(b)),
+            ]
+        elif kind == "hold2":
+            r4 = R((4, True), 0); r5 = R((6, False), 33); r6 = R((3, True), 0b101)
+            sync += [
                 Case(a, {0: r4.eq(b), 1: r4.eq(-1), -1: r4.eq(r4 - 1), "default": If(en, r4.eq(a))}),
                 Case(Cat(en, b[0]), {0: r5[0:3].eq(a), 1: r5[3:6].eq(b), 3: r5.eq(0)}),
                 r6.eq(Mux(en, r6, a)),
@@ -504,23 +507,27 @@ class SeqProg(Module):
                 If(r1 > r3, r4.eq(r4 - 1)),
             ]
         elif kind == "chain":
-            r1 = R((3, sa), 1); r2 = R((3, sa), 2); r3 = R((5, True), 3); x = R((2, False), 1); y = R((2, False), 2)
+            r1 = R((wa, sa), 1); r2 = R((wa, sa), 2); r3 = R((wa + 2, True), 3); x = R((2, False), 1); y = R((2, False), 2)
             sync += [r1.eq(a), r2.eq(r1), r3.eq(r2 + r1), x.eq(y), If(en, y.eq(x)).Else(y.eq(a))]
-        elif kind == "lhs":
-            r1 = R((6, False), 0b101010); r2 = R((3, True), 0); r3 = R((3, False), 7); arr = [R((3, False), i) for i in range(3)]
-            r4 = R((8, True), 0x81)
+        elif kind == "lhs1":
+            r1 = R((6, False), 0b101010); r2 = R((3, True), 0); r3 = R((3, False), 7)
             sync += [
                 r1[0:2].eq(a), If(en, r1[2:5].eq(b)), r1[5].eq(a[0] ^ r1[5]),
                 Cat(r2, r3).eq(a + b),
-                Array(arr)[b[0:2] if wb >= 2 else b[0]].eq(a),
+            ]
+        elif kind == "lhs2":
+            arr = [R((3, False), i) for i in range(3)]
+            r4 = R((8, True), 0x81)
+            sync += [
+                Array(arr)[Cat(b[0], en)].eq(a),
                 If(en, Cat(r4[0:3], r4[5:8]).eq(Cat(b, a))),
             ]
         elif kind == "twoclk":
-            ra = R((4, False), 1); rc = R((4, True), 2)
-            rb = R((4, False), 3, cd="b"); rd = R((5, True), 0b10000, cd="b")
+            ra = R((3, False), 1); rc = R((3, True), 2)
+            rb = R((3, False), 3, cd="b"); rd = R((3, True), 0b100, cd="b")
             self.sync.sys += [ra.eq(a + rb), If(en, rc.eq(rd))]
             self.sync.b += [rb.eq(ra + b), rd.eq(rd + a)]
-            w = Signal(4, name="w")
+            w = Signal(3, name="w")
             self.comb += w.eq(ra ^ rb)
             self.regs.append(("w", w))
         else:
@@ -548,14 +555,18 @@ class SeqProg(Module):
                     menus=menus, observe=list(self.regs), memories=[])
 
 
-SEQ_KINDS = ["ff", "hold", "acc", "chain", "lhs", "twoclk", "rstless", "portinit"]
+SEQ_KINDS = ["ff", "hold1", "hold2", "acc", "chain", "lhs1", "lhs2", "twoclk", "rstless", "portinit"]
 
 
 def seq_icfgs(kind, tier):
     if kind == "twoclk":
-        return [(2, False, 2, False), (2, True, 2, False)] if tier == "thorough" else [(2, True, 2, False)]
+        return [(2, False, 2, False), (2, True, 2, False), (1, False, 1, False)] if tier == "thorough" else [(2, True, 2, False), (1, False, 1, False)]
     base = [(3, False, 3, False), (3, True, 3, True), (3, False, 3, True), (3, True, 3, False)]
-    if kind in ("portinit", "rstless", "acc", "chain"):
+    narrow = [(2, True, 2, True), (2, False, 2, True), (2, False, 2, False), (2, True, 2, False)]
+    if kind in ("hold1", "hold2", "lhs1", "lhs2", "chain", "acc"):
+        # stateful programs: 2-bit inputs (64 letters) so that the product closes; one 3-bit version in the thorough tier
+        return narrow[:2] if tier == "quick" else narrow + base[1:2]
+    if kind in ("portinit", "rstless"):
         return base[1:2] if tier == "quick" else base[:2]
     return base if tier == "thorough" else base[1:3]
 
